@@ -145,3 +145,29 @@ package blockchain
 //@   ensures called(getLastFinalized) && ret(Cmp, 0) > 0 && old(node.height) >= ret0(getLastFinalized) + 12 ==> called(reorganizeChain)
 //@   ensures called(getLastFinalized) && (ret(Cmp, 0) < 0 || old(node.height) < ret0(getLastFinalized) + 12) ==> !called(reorganizeChain) && !called(connectBlock)
 //@   ensures called(connectBlock) ==> !called(reorganizeChain)
+
+// ---- C28: after a restart the height-window duplicate cache covers the whole allowed pack window -----------
+// HasTx / GetDuplicateTxHashList answer height-bounded transactions from txHeightCache alone, so a block that is
+// not loaded into it at start-up is invisible to duplicate detection. txhcov: the set of heights whose block
+// has been added to the cache (ghost; Add / newTxHashCache / GetBlock trusted against it).
+//@ ghost *.txhcov (Array Int Bool)
+//@ pure func (*github.com/33cn/chain33/types.Chain33Config).IsEnable
+//@ pure func fmt.Sprintf
+//@ pure func (error).Error
+//@ trusted func newTxHashCache
+//@   frame allocates
+//@   ensures result != nil && fresh(result) && (forall h Int :: !result.txhcov[h])
+//@ trusted func (txHeightCacheType).Add
+//@   frame recv.txhcov
+//@   ensures forall h Int :: recv.txhcov[h] == (old(recv.txhcov[h]) || h == block.Height)
+//@ trusted func (*BlockChain).GetBlock
+//@   frame allocates
+//@   ensures result1 == nil ==> result0 != nil && result0.Block != nil && result0.Block.Height == height
+//@ trusted func (*BlockCache).AddBlock
+//@   frame allocates, *bc
+//@ func (*BlockChain).InitCache [C28]
+//@   opt safety=assumed overflow=assumed panics=allowed deadreturns=allowed
+//@   requires chain.cfg != nil && types.HighAllowPackHeight >= 0 && types.LowAllowPackHeight >= 0
+//@   ensures ret(IsEnable) && currHeight >= 0 ==> forall h Int :: 0 <= h && h <= currHeight && h > currHeight - types.HighAllowPackHeight - types.LowAllowPackHeight ==> chain.txHeightCache.txhcov[h]
+//@   loop 0 invariant chain.txHeightCache == atentry(chain.txHeightCache) && types.HighAllowPackHeight == atentry(types.HighAllowPackHeight) && types.LowAllowPackHeight == atentry(types.LowAllowPackHeight) && (forall h Int :: !chain.txHeightCache.txhcov[h])
+//@   loop 1 invariant i <= currHeight + 1 && chain.txHeightCache == atentry(chain.txHeightCache) && (forall h Int :: 0 <= h && h < i && h > currHeight - types.HighAllowPackHeight - types.LowAllowPackHeight ==> chain.txHeightCache.txhcov[h])
